@@ -335,6 +335,51 @@ pub fn horizon_checkpoints(h: usize, n: usize) -> Vec<usize> {
     v
 }
 
+/// 2^32 + 2048 calls on ONE instance (a call / tick counter in a 32-bit type wraps there) on an LCG-driven
+/// 64-level price grid; returns the last 4096 operations and outputs (so the caller can judge the steps
+/// around and after the wrap), or None if a call panicked (with the number of completed calls).
+pub const CALLS_PAST_2_32: u64 = (1u64 << 32) + 2048;
+
+pub fn run_past_2_32(cfg: &Cfg, seed: u64) -> Result<(Vec<Op>, Vec<Out>), u64> {
+    const KEEP: usize = 4096;
+    // the wrap sits in the middle of the kept calls (numbers 2^32 - 2047 ..= 2^32 + 2048)
+    let total: u64 = CALLS_PAST_2_32;
+    let bars = !cfg.kind.has_scalar();
+    let mut ring_ops: Vec<Op> = vec![Op::S(0.0); KEEP];
+    let mut ring_out: Vec<Out> = vec![Out::NONE; KEEP];
+    let mut done = 0u64;
+    let r = std::panic::catch_unwind(std::panic::AssertUnwindSafe(|| {
+        let mut s = crate::subjects::make(cfg);
+        let mut st = seed | 1;
+        for t in 0..total {
+            st = st.wrapping_mul(6364136223846793005).wrapping_add(1442695040888963407);
+            let x = 1.0 + (st >> 58) as f64 * 0.25;
+            let op = if bars {
+                let up = ((st >> 50) & 3) as f64 * 0.25;
+                let dn = ((st >> 48) & 3) as f64 * 0.25;
+                Op::B(Bar { o: x, h: x + up, l: x - dn, c: if (st >> 47) & 1 == 0 { x + up } else { x }, v: ((st >> 44) & 3) as f64 })
+            } else {
+                Op::S(x)
+            };
+            let o = s.apply(&op);
+            if t >= total - KEEP as u64 {
+                let i = (t % KEEP as u64) as usize;
+                ring_ops[i] = op;
+                ring_out[i] = o;
+            }
+            done = t + 1;
+        }
+    }));
+    if r.is_err() {
+        return Err(done);
+    }
+    // unroll the rings into chronological order
+    let start = (total % KEEP as u64) as usize;
+    let ops: Vec<Op> = (0..KEEP).map(|k| ring_ops[(start + k) % KEEP]).collect();
+    let outs: Vec<Out> = (0..KEEP).map(|k| ring_out[(start + k) % KEEP]).collect();
+    Ok((ops, outs))
+}
+
 /// Families (one per configuration and seed) over `tick_walk`, every step checked.
 pub fn tick_walk_families(cfgs: &[Cfg], len: usize, seed: u64, bars: bool, positive: bool) -> Vec<Family> {
     let mut f = vec![];
